@@ -155,15 +155,15 @@ func (p *PropertySchema) ValidateCompatibility(typeOrData any) error {
 	err := p.TypeValue.ValidateCompatibility(typeOrData)
 	if err != nil {
 		if p.DisplayValue != nil && p.Display().Name() != nil {
-			return &ConstraintError{
+			return constraintErrorKeepPath(&ConstraintError{
 				Message: fmt.Sprintf("error while validating sub-type of property %s with type %T (%s)",
 					*p.Display().Name(), p.TypeValue, err),
-			}
+			}, err)
 		} else {
-			return &ConstraintError{
+			return constraintErrorKeepPath(&ConstraintError{
 				Message: fmt.Sprintf("error while validating sub-type of property type %T (%s)",
 					p.TypeValue, err),
-			}
+			}, err)
 		}
 	}
 	// Now just check to see if it's enabled.
